@@ -14,14 +14,14 @@ import json,sys,re
 seed,w=sys.argv[1],sys.argv[2]
 c=json.load(open(seed+'/meta.json')).get('demo_cmd','')
 c=c.split('   #')[0]
-c=re.sub(r'/tmp/seed_out2/C\d\d/(C\d\d_\w)/', seed+'/', c)
-c=re.sub(r'/tmp/seed_out/(C\d\d_\w)/', seed+'/', c)
-c=re.sub(r'/tmp/seed2_C\d\d', w, c)
+c=re.sub(r'/tmp/seed_out\d*/(C\d\d/)?(C\d\d_\w)/', seed+'/', c)
+c=re.sub(r'/tmp/seed_out\d*/(C\d\d/)?(C\d\d_\w)\b', seed, c)
+c=re.sub(r'/tmp/seed\d_C\d\d', w, c)
 print(c)
 PY
 )
 stage() { # copy demo files into the worktree root, with old scratch paths rewritten
-  for f in "$SEED"/*; do b=$(basename "$f"); case "$b" in patch.diff|meta.json|confirm.json) ;; *) sed -e "s|/tmp/seed_out2/C[0-9][0-9]/C[0-9][0-9]_[a-z]/|$SEED/|g; s|/tmp/seed_out/C[0-9][0-9]_[a-z]/|$SEED/|g; s|/tmp/seed2_C[0-9][0-9]|$W|g" "$f" > "$W/$b";; esac; done; }
+  for f in "$SEED"/*; do b=$(basename "$f"); case "$b" in patch.diff|meta.json|confirm.json) ;; *) sed -E -e "s#/tmp/seed_out[0-9]*/(C[0-9][0-9]/)?C[0-9][0-9]_[a-z]/#$SEED/#g; s#/tmp/seed_out[0-9]*/(C[0-9][0-9]/)?C[0-9][0-9]_[a-z]#$SEED#g; s#/tmp/seed[0-9]_C[0-9][0-9]#$W#g" "$f" > "$W/$b";; esac; done; }
 rundemo() { (cd "$W" && timeout 900 bash -c "$cmd") > "$W.demo.log" 2>&1; echo $?; }
 stage; clean_rc=$(rundemo); clean_tail=$(tail -3 "$W.demo.log" | tr '\n' ' ' | cut -c1-300)
 git -C "$W" checkout -q -- . ; git -C "$W" clean -fdq
